@@ -150,10 +150,10 @@ def _idx(du, ctx, y):
     return du.def_to_idx[d] if d is not None else -1
 
 
-def reach_use(f, u, y):
-    if u is None or y is None:
+def reach_use(du, u, y):
+    if u is None or y is None or du is None:
         return -1
-    du = f.def_use
+    f = CURRENT['func']
     s = stmt_of_use(f, u)
     if s is None:
         return -2
@@ -162,14 +162,13 @@ def reach_use(f, u, y):
     return _idx(du, du.reach.get(s), y)
 
 
-def reach_site(f, s, y):
-    if s is None or y is None or not isinstance(s, A.Stmt):
+def reach_site(du, s, y):
+    if s is None or y is None or du is None or not isinstance(s, A.Stmt):
         return -1
-    du = f.def_use
     return _idx(du, du.reach.get(s), y)
 
 
-CURRENT = {'du': None}
+CURRENT = {'du': None, 'func': None}
 
 
 def pure_expr(e):
@@ -194,6 +193,7 @@ def key_universe(args):
     if du is None:
         du = getattr(args.get('self'), 'def_use', None)
     CURRENT['du'] = du
+    CURRENT['func'] = f if f is not None else getattr(args.get('self'), 'func', None)
     if du is not None:
         out += list(du.defs)
         for us in du.uses.values():
